@@ -36,6 +36,7 @@ def TIE(mod, *names):
     return ["DswModel.Tie.%s:Dsw.Tie.%s" % (mod, n) for n in names]
 
 
+SWCOR = {c: TIE("SwCorollaries", *[n for n in ("gen_C01_roundtrip", "gen_C01_normal", "gen_C01_fast", "gen_C01_nocheck", "gen_C01_check", "gen_C01_total_normal", "gen_C01_total_fast", "gen_C01_total_roundtrip", "gen_C01_zero", "gen_C05_encode_meets_spec", "gen_C05_spec_unique", "gen_C05_decode_value", "gen_C05_fast_meets_spec", "gen_C05_fast_decode_value", "gen_C06_normal", "gen_C06_normal_iff", "gen_C06_fast", "gen_C06_fast_iff", "gen_C06_table_independent", "gen_C07_shape", "gen_C07_foreign", "gen_C07_subst", "gen_C07_insert", "gen_C07_delete", "gen_C07_decode_rejects", "gen_C07_encode_subst_rejected",) if n.startswith("gen_" + c)]) for c in ("C01", "C05", "C06", "C07")}
 TIE_SW = TIE("SwVt", "tie_set_vt") + TIE("SwEncode", "tie_encode") + TIE("SwDecode", "tie_decode")
 TIE_GZ = TIE("GzArith", "tie_obtain_latters", "tie_obtain_formers", "tie_get_complete_accessor")
 TIE_OPERATION = (TIE("OpAdd", "tie_calculus_addition") + TIE("OpSub", "tie_calculus_subtraction") +
@@ -47,7 +48,7 @@ TIE_OPERATION = (TIE("OpAdd", "tie_calculus_addition") + TIE("OpSub", "tie_calcu
 
 
 PROPS = {
-    "C01": dict(level="proof", theorems=T("C01", "C01_normal", "C01_fast", "C01_total_normal", "C01_total_fast", "C01_zero") + T("EndToEnd", "E2E_write_read") + TIE_SW, tie=["spiderweb", "operation"], gens=["C01", "C01_malformed", "GENSW"], gens_thorough=["C01", "C01_malformed", "C01_exhaustive", "GENSW"],
+    "C01": dict(level="proof", theorems=T("C01", "C01_normal", "C01_fast", "C01_total_normal", "C01_total_fast", "C01_zero") + T("EndToEnd", "E2E_write_read") + TIE_SW + SWCOR["C01"], tie=["spiderweb", "operation"], gens=["C01", "C01_malformed", "GENSW"], gens_thorough=["C01", "C01_malformed", "C01_exhaustive", "GENSW"],
                 rule="seeded well-formed graphs (arc subsets of de Bruijn graphs k<=3 quick / k<=5 thorough, mixed "
                      "out-degrees) x start x permutation table x message x mode x check length; a case is one encode "
                      "line; non-trivial = message value > 0 and the walk visits a branching vertex; distinct = hash "
@@ -63,14 +64,14 @@ PROPS = {
     "C04": dict(level="proof", theorems=T("C04", "C04_terminates_normal", "C04_terminates_fast", "C04_tight_normal", "C04_length_branching", "C04_length_complete", "C04_tight_fast") + T("C03", "C03_goodFrom"), gens=["C04"],
                 rule="graphs returned by the real connect_coding_graph x retained starts x messages x modes, accessor "
                      "passed as a read-counting proxy; non-trivial = value > 0 and a branching vertex visited"),
-    "C05": dict(level="proof", theorems=T("C05", "C05_encode_meets_spec", "C05_spec_unique", "C05_decode_value", "C05_fast_meets_spec", "C05_fast_decode_value") + T("C18", "C18_digit_is_rank", "C18_bijection") + TIE_SW[1:], tie=[("spiderweb", ["encode", "decode"]), "operation"], gens=["C05", "GENSW"],
+    "C05": dict(level="proof", theorems=T("C05", "C05_encode_meets_spec", "C05_spec_unique", "C05_decode_value", "C05_fast_meets_spec", "C05_fast_decode_value") + T("C18", "C18_digit_is_rank", "C18_bijection") + TIE_SW[1:] + SWCOR["C05"], tie=[("spiderweb", ["encode", "decode"]), "operation"], gens=["C05", "GENSW"],
                 rule="as C01 plus arbitrary walks decoded; compared with an independent integer-arithmetic reference "
                      "coder; non-trivial = message/walk value > 0 with a branching vertex"),
-    "C06": dict(level="proof", theorems=T("C06", "C06_normal", "C06_fast", "C06_table_independent") + TIE_SW[2:] + TIE_SW[:1], tie=[("spiderweb", ["decode", "set_vt"]), "operation"], gens=["C06", "GENSW"],
+    "C06": dict(level="proof", theorems=T("C06", "C06_normal", "C06_fast", "C06_table_independent") + TIE_SW[2:] + TIE_SW[:1] + SWCOR["C06"], tie=[("spiderweb", ["decode", "set_vt"]), "operation"], gens=["C06", "GENSW"],
                 rule="strings (walks, edited walks, random, foreign characters, empty) x graphs x starts x optional "
                      "check (right / wrong / long) x modes; non-trivial = non-empty string"),
     "C07": dict(level="proof", theorems=T("C07", "C07_shape", "C07_foreign", "C07_subst", "C07_insert", "C07_delete",
-                                          "C07_decode_rejects") + TIE_SW[:1] + TIE_SW[2:], tie=[("spiderweb", ["set_vt", "decode"]), ("operation", ["number_to_dna"])], gens=["C07", "GENSW"],
+                                          "C07_decode_rejects") + TIE_SW[:1] + TIE_SW[2:] + SWCOR["C07"], tie=[("spiderweb", ["set_vt", "decode"]), ("operation", ["number_to_dna"])], gens=["C07", "GENSW"],
                 rule="all strands up to a length bound x check lengths x all single edits, plus long random strands "
                      "and check lengths up to 200; non-trivial = length >= 2 with at least one ascent"),
     "C08": dict(level="proof", theorems=T("C08", "C08_single", "C08_single_subst", "C08_multi", "C08_single_subst_only", "C08_single_ins", "C08_single_del") + T("C09", "C09_clean") + T("EndToEnd", "E2E_single_edit", "E2E_repair_then_decode") + T("C08b", "C08_path_matching_sound", "C08_path_matching_complete", "C08_path_matching_error"), gens=["C08"],
